@@ -287,11 +287,27 @@ PROPS["C10"] = {
     "technique": "Lean 4 proofs (DFS reachability invariant, canonicity of strictly sorted lists, commutation of writes to distinct names) over a hand-written model of WriteSource's ordering logic tied by differential correspondence; repeated in-process regeneration under varied GOMAXPROCS / document order / poisoned pool and a race-detector child as failing-input search",
 }
 
+PROPS["C19"] = {
+    "lean_modules": ["Ogen.Props.C19"],
+    "suites": ["c19"],
+    "facts": ["conc"],
+    "timeout": 3600,
+    "trusted_base": [
+        KERNEL, HARNESS, GENCHECK,
+        "statements in lean/Ogen/Props/C19.lean; model Conc (Ogen/Concurrency_proof.lean): requests as sequences of atomic steps over immutable globals and private state, schedules as arbitrary interleavings; SharedMachine / usePooledNoReset as the counter-models",
+        "the fact translator (go/ast, no type checker): package-level variables and every write through one outside init — assignment to the variable, an element, field or dereference of it, ++/--, address-of, delete/clear/copy — in the package the working tree's generator writes for a probe document (all features; patterns for both regex engines, multipleOf, sums, security, form and stream bodies) and in uri, conv, json, validate, ogenregex, ogenerrors, http, middleware, otelogen, internal/bitset; method calls that mutate a global through a pointer receiver are NOT seen by it (sync.Pool/Once use is intended)",
+        "NOT modelled: the Go memory model, net/http, regexp / regexp2 / math/big internals — decided by search on every run: two packages regenerated from the working tree (default and all features) compiled with -race, 12 (thorough 24) goroutines × mixed valid / refused / failing requests through the server and through the generated client, each outcome compared with the same call run alone (twice, so that the baseline is itself reproducible)",
+    ],
+    "assumptions": ["the race detector reports only races that happen in a run", "the handler installed by the harness is a pure function of the request it is given (it is: an echo)"],
+    "level_text": "partial: outcome_as_alone, interleavings_agree, no_leak_between_requests, no_leak_through_pool are Lean theorems over all machines, states and schedules of an atomic-step model whose premise (no write to shared state outside init) is a fact regenerated from the generated package and the runtime packages on every run; witnesses show the premises are needed. Data-race freedom in the sense of the Go memory model and the behaviour of third-party code are decided by a race-detector stress on regenerated code, which is a search, not a theorem.",
+    "level_note": "trusted: Lean kernel, statements, the atomic-step abstraction, the go/ast fact translator, gencheck pipeline, Go's race detector and net/http as the search's oracles.",
+    "technique": "Lean 4 non-interference proof (induction over schedules) on an atomic-step model whose no-shared-writes premise is a fact regenerated by a go/ast translator from the generated package and the runtime packages; race-detector stress of regenerated client/server with per-call comparison against the sequential outcome as failing-schedule search",
+}
+
 # properties not claimed, with the reason (kept current; see DESIGN.md §7)
 NOT_CLAIMED = {
     "C14": "not applicable: equality of two concrete artefacts obtained by re-running the generator; there is no law to state about a model (DESIGN.md §7)",
     "C17": "not applicable: decided by third-party YAML/JSON parsers; ogen's part has no decision logic to model (DESIGN.md §7)",
-    "C19": "not applicable: goroutine schedules / race detector domain (DESIGN.md §7)",
 }
 for _p in ["C01", "C02", "C03", "C04", "C05", "C06", "C07", "C08", "C09", "C11", "C13", "C15", "C16", "C18", "C20"]:
     if _p not in PROPS:
